@@ -188,7 +188,7 @@ func C04(r *core.Run) {
 				ws = append(ws, w+e)
 			}
 		})
-		ws = append(ws, "'a.b", "'[ab]+c", "'a b@", "'", "a'b", "ab'")
+		ws = append(ws, "'a.b", "'[ab]+c", "'a b@", "'", "a'b", "ab'", "''q'", "''", "'a'")
 		return ws
 	}
 	outs, deaths := core.Parallel(r, "sweep", in{dir, maxLen}, r.Workers, func(in in, shard, n int, emit func(c04Out)) {
